@@ -17,6 +17,7 @@ import NeoModel.Proofs.CompileOverflow
 import NeoModel.Proofs.CompileOperands
 import NeoModel.Proofs.CompileDebug
 import NeoModel.Proofs.CompileOpTable
+import NeoModel.Proofs.CompileAccepted
 namespace NeoModel.C14
 open NeoModel.MiniVm NeoModel.MiniVm.Asm NeoModel.MiniGo NeoModel.Compile NeoModel.CompileProofs
 
@@ -430,6 +431,26 @@ theorem layoutOK_compProg (P : Prog) (hall : ∀ d ∈ P, Allowed [] d.body) (hs
     (hlen : longLen (compProg P) < 2 ^ 31) : layoutOK (compProg P) = true :=
   layoutOK_of_encodable _ (encodable_compProg P hall hs hlen)
 
+/-- **The layout condition from the compiler's own acceptance** (hypotheses `SmallFn` and `longLen < 2^31` removed):
+    `accepted P` models the three size errors of pkg/compiler (more than 255 arguments — codegen.go:595; more than 255
+    local slots — writeJumps, :2926; a jump offset beyond int32 — :2979); a program of allowed functions (literals
+    within 256 bits, which go/types guarantees) that the compiler does not reject has a `layoutOK` output. -/
+theorem layoutOK_accepted (P : Prog) (hall : ∀ d ∈ P, Allowed [] d.body) (hl : ∀ d ∈ P, LitsS d.body)
+    (hacc : accepted P = true) : layoutOK (compProg P) = true :=
+  layoutOK_of_accepted P hall hl hacc
+
+/-- compile_correct down to the script bytes for every accepted program (no size hypotheses besides acceptance). -/
+theorem compile_bytes_correct_accepted (P : Prog) (hall : ∀ d ∈ P, Allowed [] d.body) (hl : ∀ d ∈ P, LitsS d.body)
+    (hacc : accepted P = true) (f : String) (vs rest : List Val) (v : Val) (fuel : Nat)
+    (hrun : callF fuel P f vs = .ok v) (hdep : fuel < 1024) :
+    ∃ off m, labelOffset (compProg P) (fnLabel P f) = some off ∧
+      Byte.run (compile P) m { pc := off, stack := vs ++ rest, locals := [], args := [], frames := [] } = .halt (v :: rest) :=
+  compile_bytes_correct_partial P hall (layoutOK_of_accepted P hall hl hacc) f vs rest v fuel hrun hdep
+
+/-- the previous source-level conditions are sufficient for acceptance (so nothing was lost). -/
+theorem accepted_of_smallFn (P : Prog) (hs : ∀ d ∈ P, SmallFn d) (hlen : longLen (compProg P) < 2 ^ 31) : accepted P = true :=
+  accepted_of_small P hs hlen
+
 /-- compile_correct down to the script bytes, success direction: the byte machine started at the offset the
     assembler gives the function's mark halts with the value the Go semantics returns. -/
 theorem compile_bytes_correct (P : Prog) (hall : ∀ d ∈ P, Allowed [] d.body) (hs : ∀ d ∈ P, SmallFn d)
@@ -601,6 +622,10 @@ theorem exTwo_small : ∀ d ∈ exTwo, SmallFn d := by
 example : ∃ off m, labelOffset (compProg exTwo) (fnLabel exTwo "g") = some off ∧
     Byte.run (compile exTwo) m { pc := off, stack := [.int 17, .int 5], locals := [], args := [], frames := [] } = .halt [.int 4] := by
   simpa using compile_bytes_correct exTwo exTwo_allowed exTwo_small (by decide) "g" [.int 17, .int 5] [] (.int 4) 50 (by rfl) (by decide)
+example : accepted exTwo = true := by decide
+example : ∃ off m, labelOffset (compProg exTwo) (fnLabel exTwo "g") = some off ∧
+    Byte.run (compile exTwo) m { pc := off, stack := [.int 17, .int 0], locals := [], args := [], frames := [] } = .halt [.int (-1)] := by
+  simpa using compile_bytes_correct_accepted exTwo exTwo_allowed (fun d hd => (exTwo_small d hd).2.2) (by decide) "g" [.int 17, .int 0] [] (.int (-1)) 50 (by rfl) (by decide)
 end example_two
 
 /-- (1a) `var x T = e`: when `x` does not occur in `e`, the statement compiles to exactly the code and compile-time
